@@ -71,6 +71,9 @@ def contexts(as_mid, as_low):
         # a context whose `uses` names two files that set the same keys: the later one wins, whatever the files are called
         'ctx_uses_order': F('json', {'own0': 'top'}, uses=[{'ctx': F('yaml', {'shared': 'first', 'own1': 'first1'}, file='zz_defaults.yaml')},
                                                            {'ctx': F('json', {'shared': 'second'}, file='aa_cluster.json')}]),
+        # ... and the naming context ITSELF sets a key one of its `uses` sets: the context comes first, its `uses` follow in order (later over
+        # earlier, as release 1.4.0 merges them - a stored pipeline is configured by these values, C12)
+        'ctx_uses_own_overlap': F('json', {'own0': 'top', 'shared': 'own'}, uses=[{'ctx': F('yaml', {'shared': 'used', 'own1': 'u1'})}]),
         'dict_uses': D({'own0': 'u0'}, uses=[{'ctx': F('yaml', {'own1': 'u1'})}]),
         'object_uses': F('object', {'own0': 'u0'}, uses=[{'ctx': F('json', {'own1': 'u1', 'shared': 'u-shared'})}]),
     }
@@ -103,7 +106,7 @@ def tree_family(tier):
     for as_mid, as_low in itertools.product((None, 'a'), (None, 'b')):
         for media in medias:
             for cname, ctx in contexts(as_mid, as_low).items():
-                if tier == 'quick' and media != 'jjy' and cname not in ('none', 'exact', 'list2', 'uses-as', 'global+exact', 'uses-as-then-plain', 'dict_uses', 'object_uses', 'ctx_uses_order'):
+                if tier == 'quick' and media != 'jjy' and cname not in ('none', 'exact', 'list2', 'uses-as', 'global+exact', 'uses-as-then-plain', 'dict_uses', 'object_uses', 'ctx_uses_order', 'ctx_uses_own_overlap'):
                     continue
                 d = base_desc(as_mid, as_low, media)
                 d['context'] = ctx
@@ -337,6 +340,39 @@ def _job(descs):
     return res
 
 
+def reused_config_object_scenario():
+    """a Config OBJECT named in `uses` and used again by a second config built with another context (a sweep that builds the experiment config per
+    step but the model config once): its tasks see the second context's values and, where that context is silent, the config's own"""
+    from pathlib import Path
+    from taskchain import Config, Parameter, Task
+
+    class T(Task):
+        class Meta:
+            parameters = [Parameter('x'), Parameter('y')]
+
+        def run(self, x, y) -> list:
+            return [x, y]
+
+    out = []
+    root = scratch.fresh('c09r')
+    try:
+        for first_ctx, second_ctx, want in (({'x': 5, 'y': 5}, {'x': 6}, [6, 1]), ({'x': 5}, {'x': 6}, [6, 1]), ({'x': 5}, None, [1, 1]), (None, {'x': 6}, [6, 1])):
+            inner = Config(Path(root) / 'd', name='inner', data={'tasks': [T], 'x': 1, 'y': 1})
+            v1 = Config(Path(root) / 'd', name='o1', data={'uses': [inner]}, context=first_ctx).chain()['t'].params
+            v1 = [v1.x, v1.y]
+            p2 = Config(Path(root) / 'd', name='o2', data={'uses': [inner]}, context=second_ctx).chain()['t'].params
+            got = [p2.x, p2.y]
+            if got != want:
+                leaked = all(got[i] == second_ctx[k] for i, k in enumerate('xy') if second_ctx and k in second_ctx)
+                out.append(('reused-config-object: value of an earlier context kept where the later context is silent' if leaked else 'reused-config-object: the later context is not applied',
+                            f'used config object (x=1, y=1) built first under context {first_ctx} (-> {v1}), then under {second_ctx}: task sees {got}, declared precedence gives {want}'))
+    except Exception as e:  # noqa
+        out.append(('reused-config-object: cannot be built', f'{type(e).__name__}: {e}'))
+    finally:
+        scratch.drop(root)
+    return out
+
+
 def run(tier, seed):
     fam = tree_family(tier) + special_family()
     k = seed % len(fam)
@@ -345,6 +381,9 @@ def run(tier, seed):
     n = 64
     for r in pmap(_job, [fam[i::n] for i in range(n)]):
         res.merge(r)
+    for kind, msg in reused_config_object_scenario():
+        res.violations.append(Violation(kind, msg, {'kind': 'reused-config-object'}))
+    res.add('evaluations', 4)
     res.coverage['configurations'] = len(fam)
     res.coverage['states'] = len(fam)
     res.coverage['traces_validated_against_impl'] = res.coverage['evaluations']
@@ -353,7 +392,7 @@ def run(tier, seed):
                             'same-task conflicts in both orders, one file mounted twice / nested twice with per-namespace context; aliasing and pollution checks on caller-owned context data; '
                             'distinct_nontrivial = configurations with a context')
     res.sample({'name': fam[0]['name'], 'context': fam[0].get('context')})
-    res.assumptions += ['a context and the contexts it `uses` never define the same key (precedence unspecified)', 'reference precedence: config values < global context entries < entries for the exact namespace; later contexts over earlier']
+    res.assumptions += ['between a context and the files it names in `uses`: the context first, then its `uses` in order (as release 1.4.0 merges them)', 'reference precedence: config values < global context entries < entries for the exact namespace; later contexts over earlier']
     return res
 
 
@@ -361,4 +400,6 @@ def replay(case):
     import tcv
 
     tcv.quiet_library()
+    if case.get('kind') == 'reused-config-object':
+        return [Violation(k, m, case) for k, m in reused_config_object_scenario()]
     return [Violation(f'{case["desc"]["name"].split("[")[0].split("/")[0]}: {k}', m, case) for k, m in check(case['desc'])]
